@@ -434,6 +434,11 @@ func (eval Evaluator) evaluateInPlace(level int, c0 *rlwe.Ciphertext, c1 *rlwe.E
 			opOut.El().Value[i].CopyLvl(level, tmp1.Value[i])
 		}
 	}
+
+	// Clears the components of the receiver that neither operand has.
+	for i := maxDegree + 1; i < opOut.Degree()+1; i++ {
+		opOut.El().Value[i].Zero()
+	}
 }
 
 func (eval Evaluator) evaluateWithScalar(level int, p0 []ring.Poly, RNSReal, RNSImag ring.RNSScalar, p1 []ring.Poly, evaluate func(ring.Poly, ring.RNSScalar, ring.RNSScalar, ring.Poly)) {
